@@ -167,6 +167,32 @@ func gramCases(j run.Job, yield func(c GCase)) {
 			}
 			yield(GCase{G: g, In: string(bs), NT: 0, Fam: "sharing"})
 		}
+	case "long":
+		// seed corpus grammars with LONG inputs (the random families stop at ~10 bytes): inputs are sampled from the grammar
+		r := rand.New(rand.NewSource(j.Seed))
+		corpus := gram.SeedCorpus()
+		for it := 0; it < j.N; it++ {
+			s := corpus[r.Intn(len(corpus))]
+			if s.Name == "S->SS|a|eps" || s.Name == "ambiguous S->SbS|a" || s.Name == "N->(NN)?" {
+				continue // explosively ambiguous on long inputs
+			}
+			nt := r.Intn(len(s.G.NTs))
+			var out []byte
+			maxLen := 20 + r.Intn(50)
+			for tries := 0; tries < 30; tries++ {
+				out = out[:0]
+				if s.G.Sample(r, s.G.NTs[nt], -40, &out, maxLen) && len(out) >= 12 {
+					break
+				}
+			}
+			in := string(out)
+			if r.Intn(4) == 0 && len(in) > 0 {
+				b := []byte(in)
+				b[r.Intn(len(b))] = s.G.Alpha[r.Intn(len(s.G.Alpha))]
+				in = string(b)
+			}
+			yield(GCase{G: s.G, In: in, NT: nt, Fam: "long:" + s.Name})
+		}
 	case "corpus":
 		for _, s := range gram.SeedCorpus() {
 			for _, in := range s.Inputs {
